@@ -377,7 +377,7 @@ fn run_exception_subsets(ctx: &Ctx, lg_k: u8, max: usize) {
 /// just below the promotion with coupons that collide in their home slots, full oracle at
 /// every table growth, then offer EVERY coupon again (each must be found where the growth
 /// put it: nothing may change), then promote.
-fn run_big_sets(ctx: &Ctx, lg_k: u8) {
+fn run_big_sets(ctx: &Ctx, lg_k: u8, obs: &Observer) {
     let n = 3 * (1u32 << (lg_k - 3)) / 4;
     let cs: Vec<u32> = (0..n).map(|i| coupon((i % 4096) | ((i / 4096) << 20) | ((i % 7) << 14), 1 + (i % 60) as u8)).collect();
     let mut t = Trio::new(lg_k);
@@ -395,6 +395,8 @@ fn run_big_sets(ctx: &Ctx, lg_k: u8) {
         }
     }
     if !dead {
+        // the largest set of this lg_k (table 2^(lg_k-3) slots) is a state of its own for the observers
+        obs(ctx, &t, &|| hllm::replay_json(lg_k, &[], &cs));
         let before: Vec<_> = t.s.iter().map(hllm::obs_est).collect();
         for (i, &c) in cs.iter().enumerate() {
             let vs = t.offer_light(c);
@@ -434,7 +436,7 @@ fn run_big_sets(ctx: &Ctx, lg_k: u8) {
 
 pub fn explore(ctx: &Ctx, obs: &Observer) {
     let tier = ctx.tier;
-    tier.pick(vec![17u8, 19], vec![17, 18, 19, 20, 21]).par_iter().for_each(|&lg_k| run_big_sets(ctx, lg_k));
+    tier.pick(vec![17u8, 19, 21], vec![17, 18, 19, 20, 21]).par_iter().for_each(|&lg_k| run_big_sets(ctx, lg_k, obs));
     for (lg_k, max) in tier.pick(vec![(4u8, 6usize), (5, 4)], vec![(4, 9), (5, 5), (6, 4)]) {
         run_exception_subsets(ctx, lg_k, max);
     }
